@@ -1097,7 +1097,7 @@ Proof.
   eapply sim_conseq; [apply sim_drain_empty; exact Hq|].
   cbn beta. intros u6 rn6 i6 (-> & ->). rewrite !app_nil_l, !app_nil_r. split.
   - apply ok_unfold. split; [apply okL_set_processing; exact Hok3 | destruct rn3; reflexivity].
-  - rewrite abs_set_processing. rewrite E3. unfold sp_start, rn0. rewrite abs_set_processing, abs_set_act. reflexivity.
+  - rewrite abs_set_processing. rewrite E3. unfold sp_start, sp_start_obs, rn0. rewrite abs_set_processing, abs_set_act. reflexivity.
 Qed.
 
 Theorem back_stop : forall mc, core mc -> forall fuel rn, ok mc rn ->
